@@ -56,6 +56,7 @@ enum OpT { INIT, SELECT, SET, GET, PURGE, INITPARAM, SANITY, DISPLAY, SETVEC, GE
 struct Op {
   OpT t; int reg = 0; bool c = false;  // c: through the extern "C" interface (double registry only)
   std::string h, s, p; LD v = 0; int n = 0; std::string fn, sig; int tuple = 0;
+  int rel = 0; std::vector<LD> vals;  // SETVEC relative to the vector currently stored: 1 append one entry, 2 drop the last entry, 3 the same contents again (vals filled by resolve())
   std::string str() const {
     char b[256]; const char* R = reg ? "ld" : "d"; const char* V = c ? "C:" : "";
     switch (t) {
@@ -68,7 +69,7 @@ struct Op {
       case SANITY: snprintf(b, sizeof b, "%ssanity_check<%s>()", V, R); break;
       case DISPLAY: snprintf(b, sizeof b, "%sdisplay_param<%s>()", V, R); break;
       case DISPLAYVEC: snprintf(b, sizeof b, "%sdisplay_vec<%s>()", V, R); break;
-      case SETVEC: snprintf(b, sizeof b, "%sset_vec<%s>(%s,len=%d)", V, R, p.c_str(), n); break;
+      case SETVEC: if (rel) snprintf(b, sizeof b, "%sset_vec<%s>(%s,%s)", V, R, p.c_str(), rel == 1 ? "current+one" : rel == 2 ? "current-last" : "current"); else snprintf(b, sizeof b, "%sset_vec<%s>(%s,len=%d)", V, R, p.c_str(), n); break;
       case GETVEC: snprintf(b, sizeof b, "%sget_vec<%s>(%s)", V, R, p.c_str()); break;
       case EVAL: snprintf(b, sizeof b, "%seval_%s/%s<%s>#%d", V, fn.c_str(), sig.c_str(), R, tuple); break;
       case LIST: snprintf(b, sizeof b, "%slist_mms<%s>()", V, R); break;
@@ -104,7 +105,7 @@ template <class S> static Outcome real_op_t(const Op& o) {
       case SANITY: R.ret = std::to_string(masa_sanity_check<S>()); break;
       case DISPLAY: R.ret = std::to_string(masa_display_param<S>()); break;
       case DISPLAYVEC: R.ret = std::to_string(masa_display_vec<S>()); break;
-      case SETVEC: { std::vector<S> v(o.n); for (int i = 0; i < o.n; i++) v[i] = (S)vec_value(o.n, i); masa_set_vec<S>(o.p, v); R.ret = ""; break; }
+      case SETVEC: { std::vector<S> v(o.n); for (int i = 0; i < o.n; i++) v[i] = (S)vec_value(o.n, i); if (o.rel) { v.clear(); for (LD x : o.vals) v.push_back((S)x); } masa_set_vec<S>(o.p, v); R.ret = ""; break; }
       case GETVEC: { std::vector<S> v; v.push_back((S)-777); int st = masa_get_vec<S>(o.p, v); R.ret = std::to_string(st) + ":"; if (st == 0) for (S x : v) R.ret += hexl((LD)x) + ","; else R.ret += (v.size() == 1 && v[0] == (S)-777) ? "untouched" : "touched"; break; }
       case EVAL: { const ApiEntry* e = api_find(o.fn.c_str(), o.sig.c_str()); ApiArgs A = args_tuple(o.tuple); R.ret = e ? hexl(sizeof(S) == sizeof(double) ? (LD)e->cd(A) : e->cl(A)) : "noapi"; break; }
       case LIST: R.ret = std::to_string(masa_list_mms<S>()); break;
@@ -133,7 +134,7 @@ static Outcome real_op_c(const Op& o) {  // through the extern "C" interface
       case SANITY: R.ret = std::to_string(masa_sanity_check()); break;
       case DISPLAY: R.ret = std::to_string(masa_display_param()); break;
       case DISPLAYVEC: R.ret = std::to_string(masa_display_array()); break;
-      case SETVEC: { std::vector<double> v(o.n + 1); for (int i = 0; i < o.n; i++) v[i] = (double)vec_value(o.n, i); int n = o.n; masa_set_array(o.p.c_str(), &n, v.data()); R.ret = ""; break; }
+      case SETVEC: { std::vector<double> v(o.n + 1); for (int i = 0; i < o.n; i++) v[i] = (double)vec_value(o.n, i); int n = o.n; if (o.rel) { v.assign(o.vals.size() + 1, 0.0); for (size_t i = 0; i < o.vals.size(); i++) v[i] = (double)o.vals[i]; n = o.vals.size(); } masa_set_array(o.p.c_str(), &n, v.data()); R.ret = ""; break; }
       case GETVEC: { double arr[512]; for (double& x : arr) x = -777; int n = -5; int st = masa_get_array(o.p.c_str(), &n, arr); R.ret = std::to_string(st) + ":";
         if (st == 0) { for (int i = 0; i < n && i < 512; i++) R.ret += hexl((LD)arr[i]) + ","; if (n >= 0 && n < 512 && arr[n] != -777) R.ret += "OVERRUN"; } else R.ret += (arr[0] == -777) ? "untouched" : "touched"; break; }
       case EVAL: { ApiArgs A = args_tuple(o.tuple); double r; R.ret = c_eval(o.fn, o.sig, A, r) ? hexl((LD)r) : "noapi"; break; }
@@ -165,7 +166,7 @@ static Outcome model_op(const Op& o, Model& M, std::string& note) {
     case INITPARAM: if (!need_sel()) break; { Sol& s = G.h[G.sel]; const Sol& d = DEFAULTS[o.reg][s.name]; s.p = d.p; s.v = d.v; R.ret = (s.name == "masa_test_function") ? "*" : "0"; } break;
     case SANITY: if (!need_sel()) break; if (G.h[G.sel].name == "masa_test_function") { R.fatal = true; R.code = 1; break; } { Sol& s = G.h[G.sel]; bool bad = false; for (auto& kv : s.p) if (std::fabs((double)((kv.second - (LD)MARKER) / (LD)MARKER)) < 1e-10) bad = true; for (auto& kv : s.v) if (kv.second.empty()) bad = true; R.ret = bad ? "1" : "0"; } break;
     case DISPLAY: case DISPLAYVEC: if (!need_sel()) break; R.ret = "0"; break;
-    case SETVEC: if (!need_sel()) break; { Sol& s = G.h[G.sel]; if (s.v.count(o.p)) { std::vector<LD> v(o.n); for (int i = 0; i < o.n; i++) v[i] = o.reg ? vec_value(o.n, i) : (LD)(double)vec_value(o.n, i); s.v[o.p] = v; } R.ret = ""; } break;
+    case SETVEC: if (!need_sel()) break; { Sol& s = G.h[G.sel]; if (s.v.count(o.p)) { std::vector<LD> v(o.n); for (int i = 0; i < o.n; i++) v[i] = o.reg ? vec_value(o.n, i) : (LD)(double)vec_value(o.n, i); if (o.rel) { v.clear(); for (LD x : o.vals) v.push_back(o.reg ? x : (LD)(double)x); } s.v[o.p] = v; } R.ret = ""; } break;
     case GETVEC: if (!need_sel()) break; { Sol& s = G.h[G.sel]; if (s.v.count(o.p)) { R.ret = "0:"; for (LD x : s.v[o.p]) R.ret += hexl(x) + ","; } else R.ret = "1:untouched"; } break;
     case EVAL: if (!need_sel()) break; R.ret = "*"; break;  // value checked differentially by the pristine parent
     case LIST: R.ret = "0"; break;
@@ -245,6 +246,7 @@ static Op opSel(int reg, const std::string& h, bool c = false) { Op o = mk(SELEC
 static Op opSet(int reg, const std::string& p, LD v, bool c = false) { Op o = mk(SET, reg, c); o.p = p; o.v = v; return o; }
 static Op opGet(int reg, const std::string& p, bool c = false) { Op o = mk(GET, reg, c); o.p = p; return o; }
 static Op opSetVec(int reg, const std::string& p, int n, bool c = false) { Op o = mk(SETVEC, reg, c); o.p = p; o.n = n; return o; }
+static Op opSetVecRel(int reg, const std::string& p, int rel, bool c = false) { Op o = mk(SETVEC, reg, c); o.p = p; o.rel = rel; return o; }
 static Op opGetVec(int reg, const std::string& p, bool c = false) { Op o = mk(GETVEC, reg, c); o.p = p; return o; }
 static Op opEval(int reg, const std::string& fn, const std::string& sig, int tuple, bool c = false) { Op o = mk(EVAL, reg, c); o.fn = fn; o.sig = sig; o.tuple = tuple; return o; }
 
@@ -300,13 +302,24 @@ static std::string observe_in_fork(const Model& M) {
   if (!WIFEXITED(st) || WEXITSTATUS(st) != 0) return "OBSERVER-DIED:" + std::to_string(st);
   return s;
 }
+// a relative SETVEC takes its contents from the model's current vector of the selected solution (the model is compared with the library after every transition)
+static Op resolve(const Op& o, const Model& M) {
+  if (o.t != SETVEC || !o.rel) return o;
+  Op r = o; r.vals.clear(); const Reg& G = M.r[o.reg];
+  size_t dflt = 0;
+  if (G.has_sel && G.h.count(G.sel)) { const Sol& s = G.h.at(G.sel); if (s.v.count(o.p)) { r.vals = s.v.at(o.p); if (DEFAULTS[o.reg].count(s.name) && DEFAULTS[o.reg].at(s.name).v.count(o.p)) dflt = DEFAULTS[o.reg].at(s.name).v.at(o.p).size(); } }
+  // growth is bounded so that the space stays finite: one entry is appended to / dropped from a vector of length 3 or of the default length
+  if (o.rel == 1) { if (r.vals.size() == 3 || r.vals.size() == dflt) r.vals.push_back(9.75L); } else if (o.rel == 2 && !r.vals.empty() && (r.vals.size() == 3 || r.vals.size() == dflt)) r.vals.pop_back();
+  return r;
+}
 static bool g_key_last = false;  // state identity = observation (+ the last operation, as a proxy for hidden call-order state)
 static std::string state_key(const std::string& obs, const Op* last) { return hash128(g_key_last && last ? obs + "|last=" + last->str() : obs); }
 // replay step: the operation on library and model only, no observation
-static void pure_apply(const Op& o, Model& M) { std::string note; Model M2 = M; Outcome e = model_op(o, M2, note); Outcome g = real_op(o); if (!e.fatal && !g.fatal) M = M2; }
+static void pure_apply(const Op& o0, Model& M) { Op o = resolve(o0, M); std::string note; Model M2 = M; Outcome e = model_op(o, M2, note); Outcome g = real_op(o); if (!e.fatal && !g.fatal) M = M2; }
 
 // executes `o` in the current process on real library and model; fills violation text; returns successor key hash ("" if fatal)
-static std::string step(const Op& o, Model& M, std::string& viol, bool& fatal, std::string& evalrec) {
+static std::string step(const Op& o0, Model& M, std::string& viol, bool& fatal, std::string& evalrec) {
+  Op o = resolve(o0, M);
   std::string before_real;
 #ifdef MASA_EXCEPTIONS
   before_real = observe_in_fork(M);
@@ -469,6 +482,8 @@ static Space make_space(const std::string& id) {
     S.key_last = (id == "c12");  // registry code is where call-order state would live: C12 keeps states apart by their last operation; C16 (misuse from every visible state) uses the plain observation
     if (id == "c16" || id == "c12x") {  // misuse operations from every state
       for (int r = 0; r < 2; r++) { S.ops.push_back(opSel(r, "nosuch")); S.ops.push_back(opInit(r, "c", "no_such_solution")); S.ops.push_back(opInit(r, "a", "euler_1dd")); }
+      // one-character substitutions of a catalogue name (first, middle, last position): same length, all but one character right
+      for (int r = 0; r < 2; r++) for (const char* bad : {"xuler_1d", "eulxr_1d", "euler_1x"}) S.ops.push_back(opInit(r, "c", bad));
       // a handle spelled like the catalogue name of a solution some handle may hold: unknown handle while unregistered (fatal), an ordinary handle once registered (thorough)
       for (int r = 0; r < 2; r++) for (const char* s : {"euler_1d", "heateq_2d_steady_const"}) S.ops.push_back(opSel(r, s));
     }
@@ -482,6 +497,15 @@ static Space make_space(const std::string& id) {
       S.ops.push_back(opSet(r, "u_0", 7.5L)); S.ops.push_back(mk(GETNAME, r));
       if (r == 0) { S.ops.push_back(opEval(r, "source_rho_u", "S", 0)); S.ops.push_back(opInit(r, "heateq_2d_steady_const", "no_such_solution")); S.ops.push_back(opInit(r, "euler_1d", "euler_1dd")); }
     }
+  } else if (id == "c12r") {
+    // re-initialisation of a handle whose instance owns modified vectors: two handles holding the radiation solution (heap-allocated
+    // vectors per instance), every vector may be replaced, then the same handle is initialised again (same and other solution)
+    S.solutions = {"radiation_integrated_intensity", "euler_1d"}; S.key_last = false;
+    for (const char* h : {"a", "b"}) { S.ops.push_back(opInit(0, h, "radiation_integrated_intensity")); S.ops.push_back(opSel(0, h)); }
+    S.ops.push_back(opInit(0, "a", "euler_1d")); S.ops.push_back(opInit(1, "a", "radiation_integrated_intensity"));
+    for (const char* vn : {"vec_mean", "vec_amp", "vec_stdev"}) { S.ops.push_back(opSetVec(0, vn, 3)); S.ops.push_back(opGetVec(0, vn)); }
+    S.ops.push_back(opSetVec(1, "vec_stdev", 3)); S.ops.push_back(opSetVecRel(0, "vec_stdev", 1));
+    S.ops.push_back(opEval(0, "source_u", "S", 0)); S.ops.push_back(opEval(0, "exact_u", "S", 0)); S.ops.push_back(mk(INITPARAM, 0));
   } else if (id == "c12v") {
     // three handles, two solution types that own vector parameters (heap-allocated per instance): isolation of vectors, re-init resets them
     S.solutions = {"radiation_integrated_intensity", "cp_normal"}; S.key_last = false;
@@ -492,11 +516,14 @@ static Space make_space(const std::string& id) {
     std::string sol = g_solution; S.solutions = {sol}; defaults_for(sol); const Sol& d = DEFAULTS[0][sol];
     S.prefix = {opInit(0, "s", sol)};
     std::vector<std::string> names; if (!d.pn.empty()) { names.push_back(d.pn.front()); if (d.pn.size() > 2) names.push_back(d.pn[d.pn.size() / 2]); if (d.pn.size() > 1) names.push_back(d.pn.back()); }
+    if (!d.vn.empty() && !g_tier && names.size() > 1) names.resize(1);  // solutions with vector parameters: the vector part of the space is the large one
     names.push_back("no_such_parameter"); names.push_back("");
     std::vector<LD> vals = {1.5L, (LD)MARKER}; if (g_tier) vals.push_back(-2.25L);
     for (auto& n : names) { for (LD v : vals) S.ops.push_back(opSet(0, n, v)); S.ops.push_back(opGet(0, n)); }
     S.ops.push_back(mk(INITPARAM, 0)); S.ops.push_back(mk(PURGE, 0)); S.ops.push_back(mk(SANITY, 0)); S.ops.push_back(mk(DISPLAY, 0));
-    for (auto& vn : d.vn) { std::vector<int> lens = {0, 3}; if (g_tier) { lens.push_back(1); lens.push_back(30); } for (int n : lens) S.ops.push_back(opSetVec(0, vn, n)); S.ops.push_back(opGetVec(0, vn)); if (!g_tier) break; }
+    for (size_t vi = 0; vi < d.vn.size(); vi++) { const std::string& vn = d.vn[vi]; std::vector<int> lens = {3}; if (vi == 0 || g_tier) lens.push_back(0); if (g_tier) { lens.push_back(1); lens.push_back(30); } for (int n : lens) S.ops.push_back(opSetVec(0, vn, n));
+      S.ops.push_back(opSetVecRel(0, vn, 1)); if (vi == 0 || g_tier) { S.ops.push_back(opSetVecRel(0, vn, 2)); S.ops.push_back(opSetVecRel(0, vn, 3)); }  // extend by one entry / drop the last / store the same contents again
+      S.ops.push_back(opGetVec(0, vn)); }
     if (EVAL_OF.count(sol)) S.ops.push_back(opEval(0, EVAL_OF[sol].first, EVAL_OF[sol].second, 0));  // evaluators use the values (and vector lengths) last set
     if (!d.vn.empty()) { S.ops.push_back(opSetVec(0, "no_such_vector", 2)); S.ops.push_back(opGetVec(0, "no_such_vector")); S.ops.push_back(mk(DISPLAYVEC, 0)); }
   } else if (id == "c11all" || id == "c11allp") {
